@@ -42,8 +42,31 @@ def noise_params(n, form):
     return {'r_x': rx, 'r_y': ry, 'r_z': rz} if form == 'dict' else [rx, ry, rz]
 
 
+BP_DEFAULTS = {'max_bp_iter': 1000, 'channel_update': False, 'osd_order': 10,
+               'bp_method': 'minimum_sum'}
+
+
 def dec_params(d):
-    return {'max_bp_iter': 10 + d, 'osd_order': 0}
+    """Requested decoder parameter set number d: every parameter of the class
+    takes non-default values somewhere, including values that are falsy (0,
+    False) and differ from the default."""
+    if d == 1:
+        return {'max_bp_iter': 11, 'osd_order': 0, 'channel_update': False}
+    if d == 2:
+        return {'max_bp_iter': 12, 'osd_order': 3, 'channel_update': True}
+    if d == 3:
+        return {'max_bp_iter': 13, 'osd_order': 0, 'bp_method': 'product_sum'}
+    return {'max_bp_iter': 10 + d, 'osd_order': d}
+
+
+def built_as_requested(params, d):
+    """Every parameter of the built decoder equals the requested value, or the
+    class default where nothing was requested."""
+    want = dict(BP_DEFAULTS)
+    if d >= 1:
+        want.update(dec_params(d))
+    return set(params) == set(want) and all(
+        type(params[k]) is type(want[k]) and params[k] == want[k] for k in want)
 
 
 def rate(r):
@@ -111,6 +134,8 @@ def project_sim(sim):
     d = 0 if it == 1000 else (it - 10 if isinstance(it, int) and 1 <= it - 10 <= 9 else -1)
     if type(sim.decoder).__name__ != 'BeliefPropagationOSDDecoder':
         d = -1
+    if d >= 0 and not built_as_requested(sim.decoder.params, d):
+        d = -1
     r = round(sim.error_rate / 0.01)
     if abs(sim.error_rate - rate(r)) > 1e-12:
         r = 0
@@ -130,6 +155,8 @@ def project_run_dict(run):
     dp = run['decoder'].get('parameters') or {}
     it = dp.get('max_bp_iter')
     d = 0 if it is None else it - 10
+    if d >= 1 and dp != dec_params(d):
+        d = -1
     r = round(run['error_rate'] / 0.01)
     return [j, c, n, d, int(r)]
 
@@ -201,7 +228,8 @@ def rebuild_records():
         dnames = cls.deformation_names
         for em in [PauliErrorModel(0.2, 0.3, 0.5)] + \
                 [PauliErrorModel(0.1, 0.0, 0.9, deformation_name=dn) for dn in dnames[:1]]:
-            dec = DECODERS['BeliefPropagationOSDDecoder'](code, em, 0.07, max_bp_iter=13)
+            dec = DECODERS['BeliefPropagationOSDDecoder'](code, em, 0.07, max_bp_iter=13,
+                                                          osd_order=0, channel_update=True)
             sim = DirectSimulation(code, em, dec, 0.07, verbose=False)
             rec = {'kind': 'rebuild', 'label': f'{name}{size}'}
             try:
